@@ -162,3 +162,53 @@ class Mover(Process):
         if self.k == self.parameters['at']:
             return {'A': {'_move': [{'source': self.parameters['key'], 'target': 'B'}]}}
         return {}
+
+
+class Refill(Process):
+    """adds 1 to `level` per step, but only while level < cap: the condition is an OVERRIDDEN update_condition (not
+    the `_condition` parameter)"""
+    defaults = {'cap': 3, 'time_step': 1.0}
+
+    def ports_schema(self):
+        return {'tank': {'level': {'_default': 0, '_emit': True}, 'calls': {'_default': 0, '_emit': True}}}
+
+    def update_condition(self, timestep, states):
+        return states['tank']['level'] < self.parameters['cap']
+
+    def next_update(self, timestep, states):
+        return {'tank': {'level': 1, 'calls': 1}}
+
+
+class GateDriver(Process):
+    """sets gate.open to the next value of a script at every tick"""
+    defaults = {'script': [], 'time_step': 1.0}
+
+    def __init__(self, parameters=None):
+        super().__init__(parameters)
+        self.k = 0
+
+    def ports_schema(self):
+        return {'gate': {'open': {'_default': False, '_updater': 'set'}}}
+
+    def next_update(self, timestep, states):
+        sc = self.parameters['script']
+        v = sc[self.k] if self.k < len(sc) else False
+        self.k += 1
+        return {'gate': {'open': v}}
+
+
+class GatedStep(Step):
+    """adds 1 to out.n whenever it runs; gated by `_condition` (a path into its ports) or, with `own`, by an
+    overridden update_condition"""
+    defaults = {'own': False}
+
+    def ports_schema(self):
+        return {'gate': {'open': {'_default': False}}, 'out': {'n': {'_default': 0, '_emit': True}}}
+
+    def update_condition(self, timestep, states):
+        if self.parameters['own']:
+            return bool(states['gate']['open'])
+        return super().update_condition(timestep, states)
+
+    def next_update(self, timestep, states):
+        return {'out': {'n': 1}}
